@@ -22,6 +22,7 @@ static const char* const shn[SH_N] = {"read", "readv", "recv", "recvfrom", "recv
 #define MAXFDS 64
 static int nonblock_mode[MAXFDS]; /* what the program asked for: 0 blocking (default), 1 non-blocking */
 static int is_socket[MAXFDS];
+static volatile int closing[MAXFDS]; /* the program has called (or is calling) close() on it */
 static int scenario, nthreads;
 
 typedef struct {
@@ -58,6 +59,12 @@ static NS void g_check(int shim, int fd, size_t n, int msg_dontwait, io_res_t* r
   if (r->switched) sim_nontrivial();
   const simk_call_t* k = &r->k;
   if (!valid_fd) return; /* the invalid-descriptor scenario has its own oracle */
+  /* the descriptor was closed (by another fiber) while this call was waiting on it: the shim gives up with
+   * -1 and leaves errno alone; no particular errno is demanded for that path (DESIGN 3/C08) */
+  if (r->ret == -1 && k->waits > 0 && (closing[fd] || !simk_fd_open(fd))) {
+    sim_progress();
+    return;
+  }
   /* O1: the result is the result of the last underlying call; earlier ones transferred nothing */
   if (k->n_under == 0) {
     if (r->ret != -1) sim_violation("C08-result-from-nowhere", "%s(fd %d) returned %ld without making any underlying call", shn[shim], fd, r->ret);
@@ -299,7 +306,6 @@ static void run_stream(sim_cfg_t c) {
 /* =============== scenario ACCEPT =============== */
 #define MAXCONN 4
 static int lfd, nconn, nacceptors, accepted_total, conn_ok_total;
-static int accept_quota[2];
 static unsigned char seen_client[MAXFDS];
 static NS void g_accepted(int cfd_client) { /* the kernel's serial number of the connection */
   if (cfd_client < 1 || cfd_client >= MAXFDS) sim_violation("C08-accept-garbage", "accept returned connection #%d which the kernel never created", cfd_client);
@@ -319,11 +325,16 @@ static io_res_t do_accept(int fd) {
   g_check(SH_ACCEPT, fd, 1, 0, &r, sw0, 1);
   return r;
 }
+static fiber_t* acceptor_fiber[2];
+static volatile int listener_closed;
 static void* acceptor(void* p) {
   const int a = (int)(intptr_t)p;
-  for (int i = 0; i < accept_quota[a]; i++) {
+  for (;;) { /* accepts until the listening socket is closed under it */
     io_res_t r = do_accept(lfd);
-    if (r.ret < 0) sim_violation("C08-accept-failed", "acceptor %d: accept failed with errno %d on a listening socket in blocking mode", a, r.err);
+    if (r.ret < 0) {
+      if (!listener_closed) sim_violation("C08-accept-failed", "acceptor %d: accept failed with errno %d on an open listening socket in blocking mode", a, r.err);
+      break;
+    }
     g_accepted((int)r.k.last_off);
     is_socket[r.ret] = 1;
     nonblock_mode[r.ret] = 0;
@@ -336,6 +347,11 @@ static void* acceptor(void* p) {
     close((int)r.ret);
   }
   return NULL;
+}
+static NS int g_acceptors_blocked(void) {
+  for (int a = 0; a < nacceptors; a++)
+    if (!(sim_fiber_lib_state(acceptor_fiber[a]) == FIBER_STATE_WAITING && sim_fiber_is_saved(acceptor_fiber[a]))) return 0;
+  return 1;
 }
 static void* connector(void* p) {
   const int i = (int)(intptr_t)p;
@@ -365,33 +381,36 @@ static void* connector(void* p) {
       if (rr.ret == 1 && b[1] != (unsigned char)(b[0] ^ 0xff)) sim_violation("C08-data-corrupt", "connection %d: echoed byte %#x for %#x", i, b[1], b[0]);
     }
   } else if (r.err != ECONNREFUSED)
-    sim_violation("C08-connect-failed", "connect failed with unexpected errno %d", r.err);
+    sim_violation("C08-connect-failed", "connect failed with errno %d (the kernel refused this connection: ECONNREFUSED expected)", r.err);
+  else
+    sim_probe("connect_refused", 1);
   close(fd);
   return NULL;
 }
 static void run_accept(sim_cfg_t c) {
   nconn = wl_int(1, MAXCONN);
   nacceptors = wl_int(1, 2);
-  /* connections may be refused by an injected fault: acceptors only wait for connections that succeed, so the
-   * last acceptor quota is resolved at run time (see below): here each acceptor takes a fixed share and a
-   * fault-free configuration is forced when the shares could not be met */
-  accept_quota[0] = nacceptors == 2 ? wl_int(0, nconn) : nconn;
-  accept_quota[1] = nconn - accept_quota[0];
-  sim_describe("threads=%d accept connections=%d acceptors=%d (quota %d/%d) preempt=1/%d faults=%#x", c.threads, nconn, nacceptors, accept_quota[0], accept_quota[1], c.preempt_inv, c.faults);
+  sim_describe("threads=%d accept connections=%d acceptors=%d preempt=1/%d faults=%#x", c.threads, nconn, nacceptors, c.preempt_inv, c.faults);
   lfd = socket(AF_INET, SOCK_STREAM, 0);
   if (lfd < 0 || simk_listen(lfd, 7000)) sim_violation("C08-setup", "listen failed");
   is_socket[lfd] = 1;
-  fiber_t* f[MAXCONN + 2];
-  int n = 0;
+  fiber_t* cf[MAXCONN];
   int acc_first = wl_pct(60);
   if (acc_first)
-    for (int a = 0; a < nacceptors; a++) f[n++] = fiber_create(STK, acceptor, (void*)(intptr_t)a);
-  for (int i = 0; i < nconn; i++) f[n++] = fiber_create(STK, connector, (void*)(intptr_t)i);
+    for (int a = 0; a < nacceptors; a++) acceptor_fiber[a] = fiber_create(STK, acceptor, (void*)(intptr_t)a);
+  for (int i = 0; i < nconn; i++) cf[i] = fiber_create(STK, connector, (void*)(intptr_t)i);
   if (!acc_first)
-    for (int a = 0; a < nacceptors; a++) f[n++] = fiber_create(STK, acceptor, (void*)(intptr_t)a);
-  for (int i = 0; i < n; i++) fiber_join(f[i], NULL);
-  if (accepted_total != nconn) sim_violation("C08-accept-lost", "%d connections established, %d accepted", nconn, accepted_total);
+    for (int a = 0; a < nacceptors; a++) acceptor_fiber[a] = fiber_create(STK, acceptor, (void*)(intptr_t)a);
+  for (int i = 0; i < nconn; i++) fiber_join(cf[i], NULL);
+  /* every connection that was established has been served (the client waited for the echo); the acceptors
+   * are now blocked in accept: closing the listening socket must release them */
+  while (!g_acceptors_blocked()) fiber_sleep(0, 1000);
+  if (accepted_total != conn_ok_total) sim_violation("C08-accept-lost", "%d connections established, %d accepted", conn_ok_total, accepted_total);
+  listener_closed = 1;
+  closing[lfd] = 1;
   close(lfd);
+  closing[lfd] = 0;
+  for (int a = 0; a < nacceptors; a++) fiber_join(acceptor_fiber[a], NULL);
 }
 
 /* =============== scenario MODES =============== */
@@ -493,6 +512,7 @@ static void* closer(void* p) {
   (void)p;
   while (!g_all_blocked()) RS0(fiber_yield);
   for (int i = 0; i < 2; i++) RS0(fiber_yield);
+  closing[cfd_r] = 1;
   close(cfd_r);
   return NULL;
 }
@@ -681,7 +701,7 @@ static void run_invalid(sim_cfg_t c) {
 }
 
 void h_run(void) {
-  unsigned allowed = FBIT(F_STALL) | FBIT(F_SHORT_IO) | FBIT(F_SPURIOUS) | FBIT(F_DELAY_REPORT) | FBIT(F_EINTR) | FBIT(F_EV_FEWER) | FBIT(F_CONNECT_SLOW);
+  unsigned allowed = FBIT(F_STALL) | FBIT(F_SHORT_IO) | FBIT(F_SPURIOUS) | FBIT(F_DELAY_REPORT) | FBIT(F_EINTR) | FBIT(F_EV_FEWER) | FBIT(F_CONNECT_SLOW) | FBIT(F_CONNECT_FAIL);
   sim_cfg_t c = sim_config(1, 3, 40, allowed);
   nthreads = c.threads;
   scenario = wl_pick(SC_NKINDS + 2); /* STREAM gets three shares */
